@@ -307,7 +307,8 @@ def decode_coder(method: bytes, props: bytes | None, data: bytes, unpack_size: i
         while not d.is_finished():  # the decoder hands out its output in pieces
             more = d.process(b"")
             if not more:
-                break  # stream not terminated (py7zr flushes but never finishes its Brotli streams); sizes/CRCs still judge it
+                # not terminated: a one-shot brotli.decompress() - what an independent reader would use - refuses such a stream
+                raise FormatError("Brotli stream is not terminated (no final meta-block)")
             out += more
         return bytes(out)
     if name == "PPMD":
